@@ -23,6 +23,8 @@ const N1: Tok = Tok::Native(1);
 /// "uusd" and "uusd/vault-7": a bank denom that contains a '/' and whose first segment is another denom
 const N2: Tok = Tok::Native(2);
 const N3: Tok = Tok::Native(3);
+/// "UCOSM": differs from "ucosm" in letter case only
+const N4: Tok = Tok::Native(4);
 const T1: Tok = Tok::Cw20(0);
 const T2: Tok = Tok::Cw20(1);
 
@@ -114,6 +116,8 @@ fn default_cfg(name: &str, thorough: bool) -> Cfg {
     c.fault_bound = 1;
     c.fault_kinds = vec![Fault::Reject, Fault::Gas];
     c.raws = vec![0];
+    // Migrate{None} at every state: it must not unset the default that covers T2
+    c.migrate_limits = vec![None];
     if thorough {
         c.funds = vec![(A, T1, 1), (A, T2, 2), (B, T2, 1)];
         c.senders = vec![A, B];
@@ -344,6 +348,23 @@ fn drained_next_to_held_cfg(name: &str) -> Cfg {
     c
 }
 
+/// two native denoms that differ in letter case only, on two channels
+fn case_pair_cfg(name: &str) -> Cfg {
+    let mut c = Cfg::base(name);
+    c.channels = 2;
+    c.funds = vec![(A, N0, 1), (A, N4, 1)];
+    c.senders = vec![A];
+    c.send_toks = vec![N0, N4];
+    c.send_amounts = vec![1];
+    c.proper = vec![Base::Tok(N0), Base::Tok(N4)];
+    c.recv_amounts = vec![1, 2];
+    c.bad = vec![Den::OtherChannel(Base::Tok(N4))];
+    c.raws = vec![0];
+    c.fault_bound = 1;
+    c.fault_kinds = vec![Fault::Reject];
+    c
+}
+
 /// two channels escrowing the same denomination in amounts at the u64 boundary
 fn u64_two_channels_cfg(name: &str) -> Cfg {
     let mut c = Cfg::base(name);
@@ -395,6 +416,7 @@ fn configs(prop: &str, thorough: bool) -> Vec<(Cfg, Option<usize>)> {
             v.push(stray_cfg("C11/upgrade/v2-0.13.0-stray-funds-and-second-migrate"));
             v.push(drained_next_to_held_cfg("C11/upgrade/v2-0.13.0-drained-denom-next-to-held-denom"));
             v.push(u64_two_channels_cfg("C11/edge/u64-boundary/2ch-same-denom"));
+            v.push(case_pair_cfg("C11/native/2ch-denoms-differing-in-case"));
             for mut c in v {
                 c.props = p.clone();
                 out.push((c, None));
@@ -409,6 +431,7 @@ fn configs(prop: &str, thorough: bool) -> Vec<(Cfg, Option<usize>)> {
                 v.push(cw20_cfg("C12/fresh/cw20/listed-limit1", Some(1), QUICK));
                 v.push(default_cfg("C12/fresh/cw20/T1-listed+T2-under-default", false));
                 v.push(pair_cfg("C12/fresh/native+cw20", false));
+                v.push(cw20_cfg("C12/fresh/cw20/listed-unlimited-no-default", None, QUICK));
                 v.push(crossed(native_cfg("C12/fresh/native/crossed-channel-ids", QUICK)));
                 v.push(prefixed(native_cfg("C12/fresh/native/prefix-related-remote-channel-ids", QUICK)));
             } else {
@@ -437,6 +460,7 @@ fn configs(prop: &str, thorough: bool) -> Vec<(Cfg, Option<usize>)> {
                 v.push(c);
             }
             // upgrade paths
+            v.push(case_pair_cfg("C12/fresh/native/denoms-differing-in-case"));
             v.push(v1_cfg("C12/upgrade/v1-0.11.1", "0.11.1", thorough));
             v.push(v1_cfg("C12/upgrade/v1-0.12.0-alpha1", "0.12.0-alpha1", thorough));
             v.push(v2_cfg("C12/upgrade/v2-0.13.0-inflight", thorough));
@@ -601,8 +625,8 @@ fn describe(prop: &str) -> (&'static str, &'static str) {
             "after every step, for every token: real holdings of the ics20 contract (kernel bank / cw20 Balance) >= sum over channels of Channel{id}.balances; monitor per (channel, denom): credit = escrowed by accepted transfers - really paid out (redemptions + refunds, measured as falls of the contract's real balance in steps on that channel) >= 0; a packet whose denom is not a proper voucher of this channel for a local token, or whose amount exceeds the channel balance reported before the step, or that is not ICS-20 data moves no bank or cw20 balance at all; holdings never move in governance / migrate steps",
         ),
         "C12" => (
-            "the C11 alphabet over the governance configurations {no allow list & no default, T1 listed with limit, T1 listed + T2 admitted by the default limit, unlisted token allowed later by governance, (thorough) unlimited, native+cw20}; storages built byte-wise under the literal legacy keys in the 0.11.1 and 0.12.0-alpha1 layout (v1 ics20_config = {default_timeout, gov_contract}, no admin item, no allow list, cw20 T1 outstanding and escrowed, one more T1 send still in flight and not yet counted) and in the 0.13.0 layout (sends in flight escrowed but not yet counted; also a 0.13.0 storage with TWO channels carrying the same denominations, whose migration the real code refuses), each followed by Migrate{None | Some(2)} and then transfers, packets, acks, timeouts, Allow by governance; same-version Migrate{None|Some} at every reachable state; transfers with requested / default timeout, memo set / unset / empty at two block times; amounts 1, 2^64-1, 2^64 for native and cw20 (two sends of 2^64-1 so that a returning packet of 2^64 is covered); a bank denom containing '/' (\"uusd/vault-7\") next to \"uusd\"; a bank coin whose denom is literally \"cw20:<T1>\"",
-            "reference per (channel, denom): outstanding = accepted sends - sends whose error-ack/timeout was processed - amounts of incoming packets answered with a success ack, compared with Channel{id}.balances after every step; total_sent never falls; per incoming packet: ibc_packet_receive never returns Err/panics; success ack => receiver's real balance rose by exactly the amount and the channel balance fell by it; error ack => ALL Channel queries, all bank and cw20 balances, Config, Admin, ListAllowed, Allowed and the packets in flight equal the pre-state; per accepted transfer: exactly one committed IbcMsg::SendPacket, by the ics20 contract, on the requested channel, data == {amount (<= 2^64-1), denom (native name | cw20:<token>), receiver, sender = paying user, memo iff requested}, timeout timestamp == block time + (requested | default) seconds, contract holdings rose and payer's balance fell by the amount; migrations leave balances alone and arrive at outstanding == escrow",
+            "the C11 alphabet over the governance configurations {no allow list & no default, T1 listed with limit, T1 listed + T2 admitted by the default limit, unlisted token allowed later by governance, (thorough) unlimited, native+cw20}; storages built byte-wise under the literal legacy keys in the 0.11.1 and 0.12.0-alpha1 layout (v1 ics20_config = {default_timeout, gov_contract}, no admin item, no allow list, cw20 T1 outstanding and escrowed, one more T1 send still in flight and not yet counted) and in the 0.13.0 layout (sends in flight escrowed but not yet counted; also a 0.13.0 storage with TWO channels carrying the same denominations, whose migration the real code refuses), each followed by Migrate{None | Some(2)} and then transfers, packets, acks, timeouts, Allow by governance; same-version Migrate{None|Some} at every reachable state; transfers with requested / default timeout, memo set / unset / empty at two block times; amounts 1, 2^64-1, 2^64 for native and cw20 (two sends of 2^64-1 so that a returning packet of 2^64 is covered); two native denoms differing in letter case only on two channels; a token listed as unlimited with no default; Migrate{None} while a token sent under the default is in flight; a bank denom containing '/' (\"uusd/vault-7\") next to \"uusd\"; a bank coin whose denom is literally \"cw20:<T1>\"",
+            "reference per (channel, denom): outstanding = accepted sends - sends whose error-ack/timeout was processed - amounts of incoming packets answered with a success ack, compared with Channel{id}.balances after every step; total_sent never falls; per incoming packet: ibc_packet_receive never returns Err/panics; success ack => receiver's real balance rose by exactly the amount and the channel balance fell by it; a timeout / error ack for a send the channel balance covers (native, or cw20 listed / under a default in the reference) never aborts; error ack => ALL Channel queries, all bank and cw20 balances, Config, Admin, ListAllowed, Allowed and the packets in flight equal the pre-state; per accepted transfer: exactly one committed IbcMsg::SendPacket, by the ics20 contract, on the requested channel, data == {amount (<= 2^64-1), denom (native name | cw20:<token>), receiver, sender = paying user, memo iff requested}, timeout timestamp == block time + (requested | default) seconds, contract holdings rose and payer's balance fell by the amount; migrations leave balances alone and arrive at outstanding == escrow",
         ),
         "C18" => (
             "initial allow lists [] | [T1:unlimited] | [T1:1] x default gas limit None | 2; Allow{T1|T2, None|0|1|2^64-2|2^64-1} (0 and u64::MAX are genuine limits) and UpdateAdmin{G|G2|\"\"|\"not-an-address\"} by governance G, the later/former governance G2 and a stranger X who is the contract's chain-level (wasm) admin; initial default gas limit None | 2 | 0; Migrate{None|0|3} at every state; cw20 transfers of T1 (by user A) and of T2 (by the governance account G itself, which becomes the former governance after UpdateAdmin), native transfers, and transfers of a BANK coin whose denom is literally \"cw20:<T2>\"; incoming packets redeeming them, also with amount 0; error acks and timeouts that trigger refunds",
